@@ -2,6 +2,7 @@ package net
 
 import (
 	vp "github.com/Tnze/go-mc/internal/zzvp"
+	pk "github.com/Tnze/go-mc/net/packet"
 )
 
 func VP_C10_conn() {
@@ -10,5 +11,31 @@ func VP_C10_conn() {
 	// the transport delivers everything at once, or short reads of 1 or 3 bytes
 	a, b := vpConnPairChunk(true, vpConnThreshold(), []int{0, 1, 3}[vp.Choice(3)])
 	vpExchange(a, b)
+	vp.Cover("end")
+}
+
+// packets larger than any read-ahead buffer a cipher reader might keep (4096
+// bytes): 4095..5000-byte payloads over the encrypted connection, with and
+// without compression, followed by a small packet; contents arbitrary at the
+// ends.
+func VP_C10_conn_large() {
+	vpSetupNative()
+	n := []int{4095, 4096, 4097, 5000}[vp.Choice(4)]
+	vp.SizeBound(4*n + 64)
+	vp.Unwind(n + 64)
+	vp.MaxSteps(900000000)
+	vp.PoolMode(1)
+	t := []int{-1, 256}[vp.Choice(2)]
+	a, b := vpConnPairChunk(true, t, []int{0, 1500}[vp.Choice(2)])
+	data := vp.Noise(n)
+	data[0], data[n-1] = vp.Byte(), vp.Byte()
+	p1 := pk.Packet{ID: vpSmallID(), Data: data}
+	p2 := pk.Packet{ID: vpSmallID(), Data: vp.Bytes(2)}
+	vp.Assert(a.WritePacket(p1) == nil && a.WritePacket(p2) == nil, "WritePacket")
+	var q pk.Packet
+	vp.Assert(b.ReadPacket(&q) == nil, "ReadPacket 1")
+	vp.Assert(q.ID == p1.ID && string(q.Data) == string(p1.Data), "first packet intact")
+	vp.Assert(b.ReadPacket(&q) == nil, "ReadPacket 2")
+	vp.Assert(q.ID == p2.ID && string(q.Data) == string(p2.Data), "second packet intact and in order")
 	vp.Cover("end")
 }
